@@ -201,7 +201,8 @@ def file_route(src, case):
     except reffmt.FormatError as e:
         raise Violation('the .p8 written by `p8tool writep8` is not readable by the reference reader: %s -- source %s'
                         % (e, show(src, 120)), case, 'writep8-unreadable')
-    want = src if (not src or src.endswith(b'\n')) else src + b'\n'
+    # (the .p8 format ends every code line with a line end, and an empty program is stored as one empty line)
+    want = src if src.endswith(b'\n') else src + b'\n'
     compare(want, out, case, '`p8tool writep8` (.p8 -> .p8)')
 
 
